@@ -1,6 +1,9 @@
 package main
 
 import (
+	"crypto/sha256"
+	"encoding/binary"
+	"encoding/hex"
 	"fmt"
 	"math/rand"
 	"os"
@@ -232,6 +235,147 @@ func (b *tinyKernels) Run() {
 }
 
 // ---------------------------------------------------------------------------
+// copyHandoff: blocking copies whose command completes on an L2 flush reply.
+// A copy kernel on GPU j leaves much dirty data in GPU j's L2; then a small
+// buffer living on another GPU i is read back (and, after another kernel,
+// written). Every GPU is asked to flush; GPU i returns the small data quickly,
+// GPU j's flush reply is the last reply of the command. The application looks
+// at its destination buffer immediately when the blocking call returns and
+// again after a quiescent point; after a blocking H2D it reuses (overwrites)
+// its source buffer at once, as any application may.
+
+type copyHandoff struct {
+	d           *driver.Driver
+	env         *childEnv
+	ctx         *driver.Context
+	gpus        []int
+	Rounds      int
+	KernelBytes int
+	H2DEvery    int // the H2D-after-kernel phase runs in every H2DEvery-th round
+	Seed        int
+}
+
+func (b *copyHandoff) SelectGPU(g []int) { b.gpus = g }
+func (b *copyHandoff) SetUnifiedMemory() {}
+func (b *copyHandoff) Verify()           {}
+
+func shaHex(b []byte) string {
+	s := sha256.Sum256(b)
+	return hex.EncodeToString(s[:])
+}
+
+func (b *copyHandoff) pattern(n int, salt uint32) []byte {
+	out := make([]byte, n)
+	x := uint32(b.Seed)*2654435761 + salt*40503 + 1
+	for i := range out {
+		x = x*1664525 + 1013904223
+		out[i] = byte(x>>24) | 1 // never zero: an unwritten destination is recognisable
+	}
+	return out
+}
+
+// lineKernel is kern.ElemKernel(OpAdd) with the address shift changed from 2 to
+// 6: work-item g adds c to the first dword of the g-th 64-byte line, so every
+// work-item leaves one dirty cache line behind (many dirty L2 lines for little
+// simulated work).
+func lineKernel() *insts.KernelCodeObject {
+	co := kern.ElemKernel(kern.OpAdd)
+	data := append([]byte(nil), co.Data...)
+	found := 0
+	for k := 0; k+4 <= len(data); k += 4 {
+		if binary.LittleEndian.Uint32(data[k:]) == 0x24000082 { // v_lshlrev_b32 v0, 2, v0
+			binary.LittleEndian.PutUint32(data[k:], 0x24000086) // v_lshlrev_b32 v0, 6, v0
+			found++
+		}
+	}
+	if found != 1 {
+		panic("lineKernel: shift instruction not found exactly once in kern.ElemKernel")
+	}
+	co.Data = data
+	return co
+}
+
+func (b *copyHandoff) Run() {
+	d := b.d
+	b.ctx = d.Init()
+	nPhys := d.GetNumGPUs()
+	bigs := map[int]driver.Ptr{}
+	cos := map[int]*insts.KernelCodeObject{}
+	lines := b.KernelBytes / 64 / 64 * 64 // one work-item per line, whole work-groups
+	sizes := []int{1024, 64, 256, 4096, 128, 512}
+	for r := 0; r < b.Rounds; r++ {
+		// kd: the device the kernel is launched on (a selected plain GPU, or the
+		// unified device); jm: the physical GPU whose memory (and therefore L2)
+		// the kernel dirties; i: the physical GPU the small buffer lives on
+		kd := b.gpus[(r+1)%len(b.gpus)]
+		jm := kd
+		if kd > nPhys {
+			jm = 1 + (r+1)%nPhys
+		}
+		i := 1 + r%nPhys
+		if i == jm {
+			i = 1 + (r+1)%nPhys
+		}
+		size := sizes[(r+b.Seed)%len(sizes)]
+		if _, ok := bigs[jm]; !ok {
+			d.SelectGPU(b.ctx, jm)
+			bigs[jm] = d.AllocateMemory(b.ctx, uint64(lines*64)) // not initialised: fresh device memory reads as zero
+		}
+		if _, ok := cos[kd]; !ok {
+			cos[kd] = lineKernel()
+		}
+		dirty := func(c uint32) {
+			d.SelectGPU(b.ctx, kd)
+			args := kern.ElemArgs{Buf: bigs[jm], C: c}
+			d.LaunchKernel(b.ctx, cos[kd], [3]uint32{uint32(lines), 1, 1}, [3]uint16{64, 1, 1}, &args)
+		}
+		d.SelectGPU(b.ctx, i)
+		small := d.AllocateMemory(b.ctx, uint64(size))
+		a := b.pattern(size, uint32(2*r))
+		d.MemCopyH2D(b.ctx, small, a)
+
+		// kernel dirtying GPU jm's L2, then read the small buffer on GPU i back
+		dirty(uint32(2*r + 1))
+		d.SelectGPU(b.ctx, i)
+		b.observedD2H(r, "d2h-after-kernel", i, jm, small, a)
+
+		if r%b.H2DEvery != 0 {
+			continue
+		}
+		// kernel again, then overwrite the small buffer on GPU i; the source is
+		// reused right after the blocking call returned
+		dirty(uint32(2*r + 2))
+		d.SelectGPU(b.ctx, i)
+		a2 := b.pattern(size, uint32(2*r+1))
+		src := append([]byte(nil), a2...)
+		d.MemCopyH2D(b.ctx, small, src)
+		_, last := b.env.tracer.last()
+		for k := range src {
+			src[k] = 0
+		}
+		b.env.res.Copies = append(b.env.res.Copies, copyRec{Round: r, Op: "h2d-after-kernel", GPU: i, KernelGPU: jm, Size: size, CompletedOn: last})
+		b.observedD2H(r, "d2h-check", i, jm, small, a2)
+	}
+	// the large scratch buffers are released; the read-back of live buffers
+	// after the program covers the small ones
+	for _, ptr := range bigs {
+		_ = d.FreeMemory(b.ctx, ptr)
+	}
+}
+
+// observedD2H: blocking D2H; the destination is copied immediately when the
+// call returns, and hashed again after a quiescent point.
+func (b *copyHandoff) observedD2H(round int, op string, gpu, kernelGPU int, ptr driver.Ptr, expected []byte) {
+	host := make([]byte, len(expected))
+	b.d.MemCopyD2H(b.ctx, host, ptr)
+	imm := append([]byte(nil), host...) // the application reads its buffer as soon as the call has returned
+	_, last := b.env.tracer.last()
+	b.env.settle()
+	b.env.res.Copies = append(b.env.res.Copies, copyRec{Round: round, Op: op, GPU: gpu, KernelGPU: kernelGPU, Size: len(expected), CompletedOn: last,
+		Immediate: shaHex(imm), Settled: shaHex(host), Expected: shaHex(expected)})
+}
+
+// ---------------------------------------------------------------------------
 
 func p(c caseDesc, name string, def int) int {
 	if v, ok := c.Params[name]; ok {
@@ -240,11 +384,13 @@ func p(c caseDesc, name string, def int) int {
 	return def
 }
 
-func makeWorkload(c caseDesc, rn *runner.Runner) benchmarks.Benchmark {
+func makeWorkload(c caseDesc, rn *runner.Runner, env *childEnv) benchmarks.Benchmark {
 	d := rn.Driver()
 	at := rn.ArchType
 	_ = arch.GCN3
 	switch c.Workload {
+	case "copyhandoff":
+		return &copyHandoff{d: d, env: env, Rounds: p(c, "rounds", 3), KernelBytes: p(c, "kernel_bytes", 458752), H2DEvery: max(1, p(c, "h2d_every", 2)), Seed: p(c, "seed", 1)}
 	case "copyloop":
 		return &copyLoop{d: d, N: p(c, "n", 200), Bytes: p(c, "bytes", 4096)}
 	case "emptykernel":
